@@ -6,7 +6,7 @@ from hypothesis import strategies as st
 
 from hxv.gen import configs as gc
 from hxv.gen import streams as gs
-from hxv.lib import TZOFFS, build_indicator, mgr_kwargs, mk_candles, split_chunks, tf_seconds
+from hxv.lib import TZOFFS, apply_interlude, build_indicator, interlude, mgr_kwargs, mk_candles, split_chunks, tf_seconds
 from hxv.ref import resample as rr
 
 
@@ -32,6 +32,8 @@ def twin_cases(draw, subject=None, max_n=60, tf_prob=2, with_fill=True, min_n=0,
         "chunks": draw(gs.chunking(n - preload)),
         # timezone-aware timestamps with a fixed offset (the buckets are those of the timestamps' own wall clock)
         "tzoff": draw(st.sampled_from(TZOFFS)) if with_ts else None,
+        # a maintenance operation between two appends (it must be invisible afterwards: C14)
+        "interlude": interlude(lambda a, b: draw(st.integers(a, b)), lambda xs: draw(st.sampled_from(xs))) if draw(st.integers(0, 3)) == 0 else None,
     }
 
 
@@ -51,7 +53,10 @@ def run_incremental(case, after_append=None, **extra):
         ind.calculate()
         if after_append:
             after_append(ind)
-    for ch in chunks:
+    inter = case.get("interlude")
+    for j, ch in enumerate(chunks):
+        if inter and j == inter["after"] % len(chunks):
+            apply_interlude(ind, inter)
         ind.append(mk_candles(ch, tz))
         if after_append:
             after_append(ind)
